@@ -65,6 +65,7 @@ type WireSpec struct {
 	Assume    []string
 	// ForceOpts generates every package of this part under these options
 	ForceOpts []string
+	corrupt      func(lines [][]byte) [][]byte // selftest: tamper with the recorded trace
 	replaySchema *wireSchema
 	replayCase   *wireCase
 	// CaseFilter drops cases before execution (nil keeps all)
@@ -400,6 +401,10 @@ func runWirePart(c *Ctx, work string, sp *WireSpec) (Coverage, int, error) {
 	evf.Close()
 	// events of one case stay together and in order (each case is run by one worker)
 	sort.SliceStable(eventLines, func(i, j int) bool { return cidOf(eventLines[i]) < cidOf(eventLines[j]) })
+	if sp.corrupt != nil {
+		eventLines = sp.corrupt(eventLines)
+		nEvents = len(eventLines)
+	}
 	var streamLines [][]byte
 	if sp.Op == "stream" {
 		kept := eventLines[:0]
